@@ -13,12 +13,13 @@ RULE = ('Workload of C04 (references with several contigs, N, lower case, repeat
         'is checked against the real alignment: a record at (contig, 1-based position) exactly where some sample differs '
         'from the upper-case reference base, REF = reference base (N if not A/C/G/T), every genotype decodes through '
         'REF/ALT to the aligned character (. for -, N for ambiguity codes), contig and sample names/order, records in '
-        'reference order.  Cross-check: the alignment itself against the C04 model.  One case in twelve has ambiguity codes in the reference (REF must then read N; no model cross-check there).  Non-trivial: at least one record '
+        'reference order.  The VCF run uses --threads 1..7 independently of the alignment run, and a quarter of the VCFs is written with -o over an existing longer file.  Cross-check: the alignment itself against the C04 model.  One case in twelve has ambiguity codes in the reference (REF must then read N; no model cross-check there).  Non-trivial: at least one record '
         'expected; distinct = distinct (k, mode, flags, reference, samples).')
 ASSUMPTIONS = ['the oracle is the real `ska map -f aln` output of the same run; C05 stays meaningful if C04 fails',
                'contig names are c<i> ([A-Za-z0-9_.] only)']
 REQUIRED = {t: ['records_checked', 'multiallelic_records', 'records_on_later_contigs', 'ref_N_records',
-                'lowercase_ref_cases', 'missing_genotypes', 'N_genotypes', 'references_with_ambiguity_codes'] for t in ('quick', 'thorough')}
+                'lowercase_ref_cases', 'missing_genotypes', 'N_genotypes', 'references_with_ambiguity_codes',
+                'vcf_written_over_existing_longer_file', 'vcf_threads_not_dividing_reference_length', 'records_in_last_columns_of_reference'] for t in ('quick', 'thorough')}
 
 
 def builds(tier):
@@ -68,8 +69,24 @@ def run_case(desc, ctx):
             return res
         ref, names = st['ref'], st['names']
         flags = c04.flags_of(desc)
-        a = ctx.sh(b, 'map', ctx.path('ref.fa'), ctx.path('o.skf'), *flags)
-        v = ctx.sh(b, 'map', '-f', 'vcf', ctx.path('ref.fa'), ctx.path('o.skf'), *flags)
+        # the two runs get their own thread counts (the VCF writer may be parallel in its own way), and a share of the
+        # VCFs is written with -o over an existing, longer file
+        tv = [1, 2, 3, 4, 5, 7][(desc['seed'] // 5) % 6]
+        ta = [1, 1, 2, 3][(desc['seed'] // 30) % 4]
+        a = ctx.sh(b, 'map', ctx.path('ref.fa'), ctx.path('o.skf'), *flags, '--threads', ta)
+        if desc['seed'] % 4 == 1:
+            vout = G.stale_file(ctx, 'stale.vcf')
+            v = ctx.sh(b, 'map', '-f', 'vcf', ctx.path('ref.fa'), ctx.path('o.skf'), *flags, '--threads', tv, '-o', vout)
+            if v.returncode == 0:
+                v = type('R', (), {'returncode': 0, 'stdout': open(vout).read(), 'stderr': v.stderr})()
+            if variant == 'rel':
+                res.count('vcf_written_over_existing_longer_file')
+        else:
+            v = ctx.sh(b, 'map', '-f', 'vcf', ctx.path('ref.fa'), ctx.path('o.skf'), *flags, '--threads', tv)
+        if variant == 'rel':
+            res.see('vcf_threads', tv)
+            if tv > 1 and sum(len(c) for c in ref) % tv:
+                res.count('vcf_threads_not_dividing_reference_length')
         if variant == 'chk':
             res.count('chk_runs')
             if 'overflow' in (a.stderr + v.stderr):
@@ -169,6 +186,8 @@ def run_case(desc, ctx):
                         res.count('records_on_later_contigs')
                     if want_ref == 'N':
                         res.count('ref_N_records')
+                    if off + p_ >= total - 7:
+                        res.count('records_in_last_columns_of_reference')
                 elif key in by_key:
                     bad.append('spurious record %s %s column=%s ref=%s' % (key, by_key[key], ''.join(col), rb))
             off += len(c)
